@@ -226,7 +226,7 @@ fire("c05-marker-mismatch", "C05", ADJOINT,
      "                    (name, to_funsor(name.split(\"__BOUND\")[0], domain))",
      "                    (name, to_funsor(name.split(\"__BND\")[0], domain))", "R05.5", count=2, nth=0)
 fire("c05-subs-filter-dropped", "C05", TERMS,
-     "            fresh_subs = tuple((k, v) for k, v in self.subs if k in expr.fresh)",
+     "            fresh_subs = tuple((k, v) for k, v in self.subs if k in fresh)",
      "            fresh_subs = tuple((k, v) for k, v in self.subs)", "R05.3", "SubstituteInterpretation")
 fire("c05-stop-ignores-inputs", "C05", TERMS,
      "        if isinstance(x, Funsor) and support.isdisjoint(x.inputs):\n            return True\n        return False",
@@ -639,15 +639,15 @@ rename("C15", ARRAY, "_safesub")
 rename("C15", ARRAY, "_safediv")
 
 fire("c05-unfold-freshness-test-dropped", "C05", OPTIMIZER,
-     "        if v.reduced_vars and any(v.reduced_vars & t.input_vars for t in siblings):\n            continue\n", "", "R05.6", "unfold_contraction_generic_tuple")
+     "        if v.reduced_vars and (\n            v.reduced_vars & reduced_vars\n            or any(v.reduced_vars & t.input_vars for t in siblings)\n        ):\n            continue\n", "", "R05.6", "unfold_contraction_generic_tuple")
 fire("c08-unfold-freshness-test-dropped", "C08", OPTIMIZER,
-     "        if v.reduced_vars and any(v.reduced_vars & t.input_vars for t in siblings):\n            continue\n", "", "R08.8", "unfold_contraction_generic_tuple")
+     "        if v.reduced_vars and (\n            v.reduced_vars & reduced_vars\n            or any(v.reduced_vars & t.input_vars for t in siblings)\n        ):\n            continue\n", "", "R08.8", "unfold_contraction_generic_tuple")
 fire("c05-normalize-fuse-with-siblings-and-binders", "C05", CNF,
      "        if (v.red_op is ops.null and bin_op is v.bin_op) or (\n            bin_op is ops.null and v.red_op in (red_op, ops.null)\n        ):",
      "        if (v.red_op in (red_op, ops.null) and bin_op is v.bin_op) or (\n            bin_op is ops.null and v.red_op in (red_op, ops.null)\n        ):", "R05.6", "normalize_contraction_generic_tuple")
 silent("c05-s-unfold-freshness-isdisjoint", "C05", OPTIMIZER,
-       "        if v.reduced_vars and any(v.reduced_vars & t.input_vars for t in siblings):\n            continue\n",
-       "        if not all(v.reduced_vars.isdisjoint(t.input_vars) for t in siblings):\n            continue\n")
+       "        if v.reduced_vars and (\n            v.reduced_vars & reduced_vars\n            or any(v.reduced_vars & t.input_vars for t in siblings)\n        ):\n            continue\n",
+       "        if (v.reduced_vars & reduced_vars) or not all(v.reduced_vars.isdisjoint(t.input_vars) for t in siblings):\n            continue\n")
 rename("C05", OPTIMIZER, "unfold_contraction_generic_tuple")
 
 fire("c18-trace-record-drops-kwargs", "C18", OP,
@@ -820,14 +820,14 @@ fire("c01-getitem-rule-ignores-offset", "C01", TENSOR,
 fire("c02-distribution-over-reducing-inner-term", "C02", OPTIMIZER,
      "        if v.red_op is ops.null and (v.bin_op, bin_op) in DISTRIBUTIVE_OPS:", "        if (v.bin_op, bin_op) in DISTRIBUTIVE_OPS:", "R02.3", "unfold_contraction_generic_tuple")
 fire("c08-freshness-test-names-vs-variables", "C08", OPTIMIZER,
-     "        if v.reduced_vars and any(v.reduced_vars & t.input_vars for t in siblings):\n            continue\n",
-     "        sibling_inputs = frozenset().union(*(t.inputs for t in siblings))\n        if v.reduced_vars & sibling_inputs:\n            continue\n", "R08.8", "unfold_contraction_generic_tuple")
+     "        if v.reduced_vars and (\n            v.reduced_vars & reduced_vars\n            or any(v.reduced_vars & t.input_vars for t in siblings)\n        ):\n            continue\n",
+     "        sibling_inputs = frozenset().union(*(t.inputs for t in siblings))\n        if (v.reduced_vars & reduced_vars) or (v.reduced_vars & sibling_inputs):\n            continue\n", "R08.8", "unfold_contraction_generic_tuple")
 silent("c08-s-freshness-test-via-local-union", "C08", OPTIMIZER,
-       "        if v.reduced_vars and any(v.reduced_vars & t.input_vars for t in siblings):\n            continue\n",
-       "        sibling_vars = frozenset().union(*(t.input_vars for t in siblings))\n        if v.reduced_vars & sibling_vars:\n            continue\n")
+       "        if v.reduced_vars and (\n            v.reduced_vars & reduced_vars\n            or any(v.reduced_vars & t.input_vars for t in siblings)\n        ):\n            continue\n",
+       "        sibling_vars = frozenset().union(*(t.input_vars for t in siblings))\n        if v.reduced_vars & (sibling_vars | reduced_vars):\n            continue\n")
 silent("c05-s-freshness-test-on-names", "C05", OPTIMIZER,
-       "        if v.reduced_vars and any(v.reduced_vars & t.input_vars for t in siblings):\n            continue\n",
-       "        if any(set(v.bound) & set(t.inputs) for t in siblings):\n            continue\n")
+       "        if v.reduced_vars and (\n            v.reduced_vars & reduced_vars\n            or any(v.reduced_vars & t.input_vars for t in siblings)\n        ):\n            continue\n",
+       "        if (v.reduced_vars & reduced_vars) or any(set(v.bound) & set(t.inputs) for t in siblings):\n            continue\n")
 fire("c08-pairwise-count-at-least-two", "C08", CNF,
      "    reduced_twice = frozenset(v for v, count in counts.items() if count == 2)", "    reduced_twice = frozenset(v for v, count in counts.items() if count >= 2)", "R08.12", "eager_contraction_generic_recursive")
 fire("c02-pairwise-all-shared-vars", "C02", CNF,
@@ -997,12 +997,12 @@ NUMPY_LOG = "funsor/einsum/numpy_log.py"
 fire("c18-op-reduce-drops-falsy-params", "C18", OP,
      "        return apply, (type(self), (), self.defaults)", "        params = {k: v for k, v in self.defaults.items() if v}\n        return apply, (type(self), (), params)", "R18.9", "Op.__reduce__")
 fire("c18-as-code-no-trailing-comma", "C18", PROGRAM,
-     '            args = " ".join(f"v{arg_id}," for arg_id in arg_ids)\n', '            args = ", ".join(f"v{arg_id}" for arg_id in arg_ids)\n', "R18.10", "as_code")
+     '            args = " ".join(f"{prefix}{arg_id}," for arg_id in arg_ids)\n', '            args = ", ".join(f"{prefix}{arg_id}" for arg_id in arg_ids)\n', "R18.10", "as_code")
 fire("c18-as-code-one-comma-after-arguments", "C18", PROGRAM,
-     '            args = " ".join(f"v{arg_id}," for arg_id in arg_ids)\n            let(f"{op}({args})")',
-     '            args = ", ".join(f"v{arg_id}" for arg_id in arg_ids)\n            let(f"{op}({args},)")', "R18.10", "as_code")
+     '            args = " ".join(f"{prefix}{arg_id}," for arg_id in arg_ids)\n            let(f"{op}({args})")',
+     '            args = ", ".join(f"{prefix}{arg_id}" for arg_id in arg_ids)\n            let(f"{op}({args},)")', "R18.10", "as_code")
 silent("c18-s-as-code-comma-per-argument-no-space", "C18", PROGRAM,
-       '            args = " ".join(f"v{arg_id}," for arg_id in arg_ids)\n', '            args = "".join(f"v{arg_id}, " for arg_id in arg_ids)\n')
+       '            args = " ".join(f"{prefix}{arg_id}," for arg_id in arg_ids)\n', '            args = "".join(f"{prefix}{arg_id}, " for arg_id in arg_ids)\n')
 fire("c18-compile-allocates-id-for-arg-tuple", "C18", COMPILER,
      "        if isinstance(f, tuple):\n            continue  # Skip from Tuple directly to its elements.\n        ids[f] = len(ids)\n",
      "        ids[f] = len(ids)\n        if isinstance(f, tuple):\n            continue  # Skip from Tuple directly to its elements.\n", "R18.11", "compile_funsor")
@@ -1078,7 +1078,7 @@ fire("c06-lambda-boundary-from-variable-rank", "C06", TENSOR,
      "        dim = len(shape) - len(expr.output.shape)\n", "        dim = len(shape) - len(var.output.shape)\n", "R06.10", "eager_lambda")
 fire("c01-binary-kernel-cut-from-other-operand", "C01", TENSOR,
      "            cut = len(lhs_data.shape) - lhs_dim\n            shape = lhs_data.shape\n            shape = shape[:cut] + (1,) * (rhs_dim - lhs_dim) + shape[cut:]",
-     "            cut = len(lhs_data.shape) - rhs_dim\n            shape = lhs_data.shape\n            shape = shape[:cut] + (1,) * (rhs_dim - lhs_dim) + shape[cut:]", "R01.17", "eager_binary_tensor_tensor")
+     "            cut = len(lhs_data.shape) - rhs_dim\n            shape = lhs_data.shape\n            shape = shape[:cut] + (1,) * (rhs_dim - lhs_dim) + shape[cut:]", "R01.17", "eager_binary_tensor_tensor", count=2, nth=0)
 silent("c06-s-lambda-boundary-via-local-rank", "C06", TENSOR,
        "        dim = len(shape) - len(expr.output.shape)\n", "        event_rank = len(expr.output.shape)\n        dim = len(shape) - event_rank\n")
 fire("c04-fusion-filters-outer-pairs", "C04", TERMS,
@@ -1202,8 +1202,8 @@ fire("c04-affine-reduce-ignores-op", "C04", AFFINE,
      "    if fn.op is ops.add:\n        reduced_names = frozenset(v.name for v in fn.reduced_vars)\n        return affine_inputs(fn.arg) - reduced_names\n    return frozenset()\n",
      "    return affine_inputs(fn.arg) - frozenset(v.name for v in fn.reduced_vars)\n", "R04.21", "_#4")
 V.append(dict(id="c18-trace-record-from-call-site-arguments-only", prop="C18", kind="fire", expect_rule="R18.7", expect_in="Op.__call__",
-              edits=[(OP, "        bound = cls.signature.bind_partial(*args, **kwargs)\n",
-                      "        bound = cls.signature.bind_partial(*args, **kwargs)\n        call_args, call_kwargs = bound.args[cls.arity :], bound.kwargs\n"),
+              edits=[(OP, "        bound = cls.signature.bind_partial(*args, **kwargs)\n        for key, value in self.defaults.items():\n",
+                      "        bound = cls.signature.bind_partial(*args, **kwargs)\n        call_args, call_kwargs = bound.args[cls.arity :], bound.kwargs\n        for key, value in self.defaults.items():\n"),
                      (OP, "                op = cls(*args[cls.arity :], **kwargs)\n", "                op = cls(*call_args, **call_kwargs)\n")]))
 fire("c18-min-array-scalar-copied-from-max", "C18", ARRAY,
      "@min.register(array, (int, float))\ndef _min(x, y):\n    return np.clip(x, None, y)\n", "@min.register(array, (int, float))\ndef _min(x, y):\n    return np.clip(x, y, None)\n", "R18.14", "min")
@@ -1233,7 +1233,7 @@ for _p, _r in (("C02", "R02.21"), ("C05", "R05.11"), ("C08", "R08.18")):
            "        if reduced_vars & v.reduced_vars:\n            continue\n", "        if not reduced_vars.isdisjoint(v.reduced_vars):\n            continue\n")
 fire("c02-commute-joint-merges-same-binder", "C02", CNF,
      "    if reduced_vars & mixture.reduced_vars:\n        return None  # two reductions over the same variable do not merge\n    return Contraction(\n        mixture.red_op if red_op is ops.null else red_op,\n        bin_op,\n        reduced_vars | mixture.reduced_vars,\n        *(mixture.terms + (other,)),",
-     "    return Contraction(\n        mixture.red_op if red_op is ops.null else red_op,\n        bin_op,\n        reduced_vars | mixture.reduced_vars,\n        *(mixture.terms + (other,)),", "R02.21", "normalize_contraction_commute_joint")
+     "    return Contraction(\n        mixture.red_op if red_op is ops.null else red_op,\n        bin_op,\n        reduced_vars | mixture.reduced_vars,\n        *(mixture.terms + (other,)),", "R02.21", "normalize_contraction_commute_joint", count=2, nth=0)
 for _p, _r in (("C02", "R02.22"), ("C08", "R08.17")):
     fire(f"{_p.lower()}-canonical-order-returns-plain-product", _p, CNF,
          "    if any(v is not vv for v, vv in zip(terms, new_terms)):\n        return Contraction(red_op, bin_op, reduced_vars, *new_terms)\n",
